@@ -23,8 +23,8 @@ BOUNDS = {
     'thorough': dict(DEPTH=3, CHAIN_OPERANDS='full'),
 }
 
-LIMIT_S = 2.0
-KILL_S = 6.0
+LIMIT_S = 10.0     # far above any legitimate cost (slowest enumerated case: 1.6 s, a 5000-digit base to a fractional power)
+KILL_S = 20.0
 
 # label -> python expression building the operand (evaluated with D = the snapshot's Decimal)
 OPERANDS = {
